@@ -137,8 +137,69 @@ def cmd_detect(ids):
     return summary
 
 
+def cmd_import_benign(src, tag):
+    for name in sorted(os.listdir(src)):
+        d = os.path.join(src, name)
+        if not (os.path.isdir(d) and re.match(r'^r\d+$', name) and os.path.exists(os.path.join(d, 'patch.diff'))):
+            continue
+        sid = 'benign-%s-%s' % (tag, name)
+        out = os.path.join(V, 'benign', sid)
+        os.makedirs(out, exist_ok=True)
+        shutil.copy(os.path.join(d, 'patch.diff'), os.path.join(out, 'patch.diff'))
+        if os.path.exists(os.path.join(d, 'notes.md')):
+            shutil.copy(os.path.join(d, 'notes.md'), os.path.join(out, 'author_notes.md'))
+        save_meta(out, {'id': sid, 'kind': 'behaviour-preserving refactoring', 'origin': 'sub-agent given only an area of the code and a scratch worktree; '
+                        'it checked 306 tests and a byte-identical behaviour transcript'})
+        print('imported', sid)
+
+
+def cmd_benign(ids):
+    global SEEDED
+    SEEDED = os.path.join(V, 'benign')
+    st = sh(['git', '-C', '/repo', 'status', '--porcelain'])
+    assert not st.stdout.strip(), '/repo is not clean'
+    bad = 0
+    for sid in ids_or_all(ids):
+        d = os.path.join(SEEDED, sid)
+        meta = load_meta(d)
+        ap = sh(['git', '-C', '/repo', 'apply', os.path.join(d, 'patch.diff')])
+        if ap.returncode != 0:
+            print(sid, 'patch does not apply', ap.stderr[:200])
+            continue
+        try:
+            t = sh([PY, '-m', 'pytest', '-q', '-p', 'no:cacheprovider', 'tests'], cwd='/repo')
+            tail = (t.stdout.strip().splitlines() or ['?'])[-1]
+            env = dict(os.environ, SA_NOWRITE='1')
+            procs = {p: subprocess.Popen([PY, '-m', 'sa.check', p, '--tier', 'quick'], cwd=V, env=env, stdout=subprocess.PIPE, stderr=subprocess.STDOUT, text=True)
+                     for p in PROPS}
+            alarms = {}
+            for p, pr in procs.items():
+                out, _ = pr.communicate()
+                if pr.returncode != 0:
+                    alarms[p] = {'exit': pr.returncode, 'lines': [l[:260] for l in out.splitlines() if l.startswith(('  ', 'ANALYSIS-ERROR'))][:4]}
+        finally:
+            sh(['git', '-C', '/repo', 'checkout', '--', '.'])
+            sh(['git', '-C', '/repo', 'clean', '-fdq', 'src'])
+        meta['tests_with_change'] = tail
+        meta['alarms'] = alarms
+        save_meta(d, meta)
+        print('%-18s tests: %-22s %s' % (sid, tail, 'silent' if not alarms else 'ALARMS %s' % sorted(alarms)))
+        for p, a in alarms.items():
+            bad += 1
+            for l in a['lines'][:2]:
+                print('      %s exit %d %s' % (p, a['exit'], l))
+    assert not sh(['git', '-C', '/repo', 'status', '--porcelain']).stdout.strip(), '/repo left dirty!'
+    return bad
+
+
 if __name__ == '__main__':
     a = sys.argv[1:]
+    if a[0] == 'import-benign':
+        cmd_import_benign(a[1], a[2])
+        sys.exit(0)
+    if a[0] == 'benign':
+        cmd_benign(a[1:])
+        sys.exit(0)
     if a[0] == 'import':
         cmd_import(a[1], a[2])
     elif a[0] == 'verify':
